@@ -262,7 +262,7 @@ def classify(case, msg):
     return None
 
 
-OPTIONS = gencc.Options(max_funcs=3, max_stmts=6)
+OPTIONS = gencc.Options(max_funcs=3, max_stmts=6, effects=12, many_params=20)
 
 
 @st.composite
